@@ -54,7 +54,9 @@ CONSTANTS Mode,       \* "seq" | "conc"
           MaxSteps,   \* seq: bound on state-changing calls
           OpenNames, StatNames, ListNames,
           ReadLens, Seeks, Pages,
-          MaxFail     \* conc: number of injected failures per run (0 | 1)
+          MaxFail,    \* conc: number of injected failures per run (0 | 1)
+          StoreRemoves \* conc: the cache store offers Remove (a failed fill is cleaned up in a step of its own, under the lock);
+                       \* FALSE: a store with OpenFile + Mkdir only (the fill is marked incomplete, nothing to wait for)
 
 VARIABLE st
 
@@ -88,7 +90,7 @@ Init0(x) == [cfg |-> x.cfg, cs |-> [i \in 1..Len(x.src) |-> -1], hs |-> [h \in 1
 \* IMPLEMENTATION-SHAPED: the steps of one opener t
 Done(s, t, res) == [s EXCEPT !.th[t].pc = "done", !.th[t].res = res]
 Waiters(s)      == { u \in 1..Len(s.th) : s.th[u].pc = "waiting" }
-Copiers(s)      == { u \in 1..Len(s.th) : s.th[u].pc \in {"copyopen", "create", "read", "write"} }
+Copiers(s)      == { u \in 1..Len(s.th) : s.th[u].pc \in {"copyopen", "create", "read", "write", "cleanup"} }
 
 RECURSIVE Lookup(_, _), Unlock(_)
 \* t holds the path lock and looks the name up in the cache store
@@ -116,6 +118,7 @@ Step(s, t) ==
     [] x.pc = "copyopen" -> LET s1 == [s EXCEPT !.th[t].so = @ + 1] IN
                             IF Retain(s, i) THEN [s1 EXCEPT !.th[t].pc = "create"] ELSE Unlock(Done(s1, t, "src"))
     [] x.pc = "create"   -> [s EXCEPT !.cs[i] = 0, !.th[t].pc = "read", !.th[t].c = 1]
+    [] x.pc = "cleanup"  -> Unlock(Done([s EXCEPT !.cs[i] = -1], t, "err"))
     [] x.pc = "read"     -> LET s1 == [s EXCEPT !.th[t].sr = @ + 1] IN
                             IF Size(s, i) - Buf * (x.c - 1) <= 0 THEN Finish(s1, t) ELSE [s1 EXCEPT !.th[t].pc = "write"]
     [] x.pc = "write"    -> LET s1 == [s EXCEPT !.cs[i] = x.c] IN
@@ -126,9 +129,12 @@ Fail(s, t) ==
   LET x == s.th[t]  i == x.i  s0 == [s EXCEPT !.nf = @ + 1] IN
   CASE x.pc = "statopen" -> Done([s0 EXCEPT !.th[t].so = @ + 1], t, "err")
     [] x.pc = "copyopen" -> Unlock(Done([s0 EXCEPT !.th[t].so = @ + 1], t, "err"))
-    [] x.pc = "create"   -> Unlock(Done(s0, t, "err"))
-    [] x.pc = "read"     -> Unlock(Done([s0 EXCEPT !.cs[i] = -1, !.th[t].sr = @ + 1], t, "err"))
-    [] x.pc = "write"    -> Unlock(Done([s0 EXCEPT !.cs[i] = -1], t, "err"))
+    \* a failure inside the copy: what was written so far is removed from the cache store BEFORE the lock is released
+    \* (pc "cleanup": the opener stands at the store's Remove, still holding the lock, the partial copy still there)
+    [] x.pc = "create"   -> IF StoreRemoves THEN [s0 EXCEPT !.th[t].pc = "cleanup"] ELSE Unlock(Done(s0, t, "err"))
+    [] x.pc = "read"     -> IF StoreRemoves THEN [s0 EXCEPT !.th[t].sr = @ + 1, !.th[t].pc = "cleanup"]
+                            ELSE Unlock(Done([s0 EXCEPT !.cs[i] = -1, !.th[t].sr = @ + 1], t, "err"))
+    [] x.pc = "write"    -> IF StoreRemoves THEN [s0 EXCEPT !.th[t].pc = "cleanup"] ELSE Unlock(Done([s0 EXCEPT !.cs[i] = -1], t, "err"))
 RECURSIVE Run(_, _)
 Run(s, t) == IF s.th[t].pc = "done" THEN s ELSE Run(Step(s, t), t)
 
@@ -247,6 +253,8 @@ Enabled(s, c) ==
     [] c.op = "seek" -> /\ H(s, c.h).s # "unused" /\ s.cfg.seek
                         /\ (H(s, c.h).k = "dir" => c.off = 0 /\ c.wh = 0)
     [] c.op = "step" -> /\ s.th[c.t].pc \notin {"waiting", "done"}
+                        \* (which of two waiters the mutex wakes is not specified: the failed fill ends with at most one)
+                        /\ (s.th[c.t].pc = "cleanup" => Cardinality(Waiters(s)) <= 1)
                         /\ (s.th[c.t].pc = "idle" => \A u \in 1..(c.t - 1) : s.th[u].pc # "idle")
     [] c.op = "fail" -> /\ s.th[c.t].pc \in {"statopen", "copyopen", "create", "read", "write"}
                         /\ s.nf < MaxFail /\ Cardinality(Waiters(s)) <= 1
@@ -307,7 +315,7 @@ NoPartialServed ==
   /\ ((\E t \in Threads : st.th[t].res = "err") => st.nf > 0)
   /\ \A h \in 1..Len(st.hs) : st.hs[h].s = "open" /\ st.hs[h].bk = "cache" => Complete(st, st.hs[h].i)
   /\ \A i \in Files(st) : (st.cs[i] >= 0 /\ ~Complete(st, i)) =>
-        \E t \in Copiers(st) : st.th[t].i = i /\ st.th[t].pc \in {"read", "write"}
+        \E t \in Copiers(st) : st.th[t].i = i /\ st.th[t].pc \in {"read", "write", "cleanup"}
 \* the visible result of a call is the source's, whatever the cache holds (r = Eval(st, c))
 Transparent(c, r) ==
   /\ (c.op \in {"open", "stat"} => LET rs == RefStat(st, Idx(st, c.name)) IN r.e = rs.e /\ r.k = rs.k /\ r.z = rs.z /\ r.m = rs.m)
@@ -339,10 +347,12 @@ FillsFollowPolicy(c, r) ==
 \* conc: a step without an injected failure makes nobody fail; a woken opener finds the complete file or becomes the
 \* next copier; a failed fill reports an error, leaves nothing partial and releases the lock
 FailedFillIsClean(c, r) ==
-  /\ (c.op = "step" => \A u \in Threads : r.st.th[u].res = "err" => st.th[u].res = "err")
+  /\ (c.op = "step" => \A u \in Threads : r.st.th[u].res = "err" => (st.th[u].res = "err" \/ (u = c.t /\ st.th[u].pc = "cleanup")))
   /\ (c.op \in {"step", "fail"} => \A u \in r.w : r.st.th[u].pc = "copyopen" \/ (r.st.th[u].pc = "done" /\ r.st.th[u].res = "cache"))
-  /\ (c.op = "fail" => r.st.th[c.t].res = "err" /\ r.st.lock # c.t)
-  /\ (c.op = "fail" /\ st.lock = c.t => r.st.cs[st.th[c.t].i] \in {-1} \cup {Chunks(st, st.th[c.t].i)})
+  /\ (c.op = "fail" => (r.st.th[c.t].res = "err" /\ r.st.lock # c.t) \/ (r.st.th[c.t].pc = "cleanup" /\ r.st.lock = c.t))
+  \* the clean-up happens under the lock: nobody else moves until the partial copy is gone
+  /\ (c.op = "fail" /\ r.st.th[c.t].pc = "cleanup" => r.w = {})
+  /\ (c.op = "step" /\ st.th[c.t].pc = "cleanup" => r.st.th[c.t].res = "err" /\ r.st.lock # c.t /\ r.st.cs[st.th[c.t].i] = -1)
 
 ModelProps ==
   /\ AtMostOneCopyPerName
